@@ -20,7 +20,7 @@ PROP = dict(
              tgt('c08_tls_server', 0, 0, 'libfuzzer'), tgt('c08_tls_client', 0, 1, 'libfuzzer'), tgt('c08_dtls_server', 1, 0, 'libfuzzer'), tgt('c08_dtls_client', 1, 1, 'libfuzzer')],
 )
 # ---- TLS 1.3 parsers behind record protection: a keyed mutating peer (harness/puppet13) sends grammar-aware mutations of
-# EncryptedExtensions / CertificateRequest / Certificate / CertificateVerify / Finished / NewSessionTicket / KeyUpdate / EndOfEarlyData
+# ServerHello / HelloRetryRequest extension blocks (plaintext, but kept well-formed: cookie 0..65535 bytes, key_share and supported_versions with odd lengths, duplicates, unknown types) and of EncryptedExtensions / CertificateRequest / Certificate / CertificateVerify / Finished / NewSessionTicket / KeyUpdate / EndOfEarlyData
 # sealed under the real traffic keys, to a client or server victim (props/C08/keyed13.cc)
 _SRC_K13 = ['props/C08/keyed13.cc', 'harness/puppet13.cc', 'harness/wraps.c', 'harness/shim.c']
 PROP['targets'] += [
